@@ -484,6 +484,23 @@ def interp_stmt(st, env, P):
     if m and env.cls == "EnteredSpan":
         env.taken.add(m.group(1))
         return [("STakeSpan",)]
+    # ---- EnteredSpan::exit written without the placeholder: ManuallyDrop::new(self) suppresses the guard's destructor, the
+    #      span is exited in place (`this.span` IS self's span) and moved out with ptr::read.  Read as shapes: the model's row
+    #      has STakeSpan (the span is owned by a local BEFORE do_exit runs); this row differs from it.
+    if env.cls == "EnteredSpan":
+        m = re.match(r"^let (?:mut )?(\w+) = (?:(?:core|std)::)?(?:mem::)?ManuallyDrop::new\(self\)$", st)
+        if m:
+            env.forgot_self = True
+            env.md_self = m.group(1)
+            env.span.add("%s.span" % m.group(1))
+            return [("SForgetSelf",)]
+        md = getattr(env, "md_self", None)
+        if md and re.match(r"^unsafe \{ (?:(?:core|std)::)?ptr::read\(&%s\.span\) \}$" % re.escape(md), st):
+            return [("SOwnSpan",)]
+        m = re.match(r"^let (\w+) = unsafe \{ (?:(?:core|std)::)?ptr::read\(&(\w+)\.span\) \}$", st)
+        if m and md and m.group(2) == md:
+            env.taken.add(m.group(1))
+            return [("SOwnSpan",)]
     # ---- projections (aliases only)
     if st in ("let this = this.project()", "let this = self.project()") and env.cls in ("Instrumented", "WithDispatch"):
         if env.cls == "Instrumented":
